@@ -1684,9 +1684,9 @@ def _unit_scaler_role(ctx, name, at):
             return None
         e = payload
         if isinstance(e, ast.Call) and astx.callee_attr(e) == 'get' and len(e.args) == 1 and isinstance(e.args[0], ast.Name):
-            tbl = astx.path(e.func.value)
+            tbl = astx.path(ctx.resolve(e.func.value, d)[0])
         elif isinstance(e, ast.Subscript) and isinstance(e.slice, ast.Name):
-            tbl = astx.path(e.value)
+            tbl = astx.path(ctx.resolve(e.value, d)[0])
             e = ast.Call(func=None, args=[e.slice], keywords=[])
         else:
             return None
@@ -2727,71 +2727,99 @@ def dispatch(repo, out):
 
 
 # =========================================================================== order in compute_totals
+_ORDER_EVENTS = ('_apply_unit_scaling', 'apply_jac_scaling', '_apply_subtractions')
+
+
+def _order_fn(repo, out, fn, top, depth):
+    """Order/once/gating check of the jacobian post-processing in one function; helper methods of the same class
+    that contain some of the steps are analysed the same way and their call sites stand for those steps.
+    Returns {'unit','drv','sub': bool} (what the function is guaranteed to do) or None when a verdict was emitted."""
+    g = cfgm.build(fn)
+    qn = fn.qualname
+
+    def ne(n, m, lab):
+        return lab != 'exc'
+    hn = {}
+    if depth < 2 and '.' in qn:
+        cls_ = qn.rsplit('.', 1)[0]
+        for n in g.nodes:
+            if n.kind not in ('stmt', 'test', 'with'):
+                continue
+            for c in n.calls():
+                if isinstance(c.func, ast.Attribute) and astx.path(c.func.value) == 'self' and \
+                        c.func.attr not in _ORDER_EVENTS + ('_compute_totals_approx', 'compute_totals'):
+                    h = fn.module.funcs.get(f'{cls_}.{c.func.attr}')
+                    if h is not None and h.node is not fn.node and \
+                            any(astx.callee_attr(x) in _ORDER_EVENTS for x in astx.calls(h.node)):
+                        summ = _order_fn(repo, out, h, False, depth + 1)
+                        if summ is None:
+                            return None
+                        hn[n] = summ
+    unit_d = g.calling('_apply_unit_scaling')
+    drv_d = g.calling('apply_jac_scaling')
+    unit = unit_d + [n for n, sm in hn.items() if sm['unit'] and n not in unit_d]
+    drv = drv_d + [n for n, sm in hn.items() if sm['drv'] and n not in drv_d]
+    sub = g.calling('_apply_subtractions') + [n for n, sm in hn.items() if sm['sub']]
+    scal_any = unit + drv + [n for n, sm in hn.items() if sm['scales'] and n not in unit + drv]
+    deleg = g.calling('_compute_totals_approx') if qn.endswith('compute_totals') else []
+    for s_ in scal_any:
+        after = bfs(g, g.normal_succ(s_), ne)
+        if set(sub) & after:
+            out.bad(fn, s_.ast, 'the jacobian is rescaled before simul_coloring._apply_subtractions(J): the subtraction '
+                    'combines entries of different rows/columns that by then carry different scale factors',
+                    key='scale-before-subtract')
+            return None
+        if s_ in after:
+            out.bad(fn, s_.ast, 'the in-place scaling call sits in a loop: blocks are scaled more than once',
+                    key='scale-twice')
+            return None
+    if len(unit) > 1 and any(u2 in bfs(g, g.normal_succ(u), ne) for u in unit for u2 in unit if u2 is not u) or \
+            len(drv) > 1 and any(d2 in bfs(g, g.normal_succ(d), ne) for d in drv for d2 in drv if d2 is not d):
+        out.bad(fn, (unit + drv)[0].ast, 'scaling is applied twice on one path', key='scale-twice')
+        return None
+    lin = ([m for n in g.calling('_linearize') for m in g.normal_succ(n)] if top else []) or [g.entry]
+    odd_guard = None
+    for sc_node in scal_any:
+        for a in astx.ancestors(sc_node.ast):
+            if isinstance(a, ast.If) and astx.path(a.test) != 'self.has_scaling' and \
+                    not (isinstance(a.test, ast.Constant)) and astx.path(a.test) != 'self.approx':
+                odd_guard = a
+    if odd_guard is not None:
+        out.unsure(fn, odd_guard, 'jacobian scaling sits under an unrecognised condition')
+        return None
+    unit_all = bool(unit) and g.path(lin, [g.exit], avoid=unit + deleg, labels=cfgm.noexc) is None
+    tests = [n for n in g.nodes if n.kind == 'test' and isinstance(n.ast, ast.If) and
+             astx.path(n.ast.test) == 'self.has_scaling']
+
+    def gated(n, m, lab):
+        return lab != 'exc' and not (n in tests and lab == 'false')
+    drv_all = bool(drv) and g.exit not in bfs(g, lin, gated, avoid=drv + deleg)
+    ungated = [d for d in drv_d if d in bfs(g, [g.entry], lambda n, m, lab: lab != 'exc' and
+                                             not (n in tests and lab == 'true'))]
+    if ungated:
+        out.bad(fn, ungated[0].ast, 'apply_jac_scaling is reachable when has_scaling is false '
+                '(driver_scaling=False was requested)', key='driver-scale-ungated')
+        return None
+    if top:
+        if not unit_all:
+            out.bad(fn, fn.node, 'totals can be returned without unit scaling: values are in declared units, derivatives '
+                    'are not', key='unit-scale-missing')
+            return None
+        if not drv_all:
+            out.bad(fn, fn.node, 'totals can be returned without driver scaling although has_scaling is set',
+                    key='driver-scale-missing')
+            return None
+        via = f' (through {", ".join(sorted({astx.callee_attr(c) for n in hn for c in n.calls() if astx.path(astx.receiver(c)) == "self"} & {x.name for x in fn.module.funcs.values()}))})' if hn else ''
+        out.ok(fn, unit[0].ast, 'unit scaling exactly once on every path, after the subtractions' + via)
+        out.ok(fn, drv[0].ast, 'driver scaling exactly once iff has_scaling, after the subtractions' + via)
+    return dict(unit=unit_all, drv=drv_all, sub=bool(sub), scales=bool(scal_any))
+
+
 @rule('C20.order', floor=5)
 def order(repo, out):
     """Total jacobian: unit and driver scaling are applied exactly once, after the colouring subtractions; driver scaling is gated by the driver_scaling request."""
     for qn in ('_TotalJacInfo.compute_totals', '_TotalJacInfo._compute_totals_approx'):
-        fn = repo.func(TOTJAC, qn)
-        g = cfgm.build(fn)
-
-        def ne(n, m, lab):
-            return lab != 'exc'
-        unit = g.calling('_apply_unit_scaling')
-        drv = g.calling('apply_jac_scaling')
-        sub = g.calling('_apply_subtractions')
-        deleg = g.calling('_compute_totals_approx') if qn.endswith('compute_totals') else []
-        bad = False
-        for s in unit + drv:
-            after = bfs(g, g.normal_succ(s), ne)
-            if set(sub) & after:
-                out.bad(fn, s.ast, 'the jacobian is rescaled before simul_coloring._apply_subtractions(J): the subtraction '
-                        'combines entries of different rows/columns that by then carry different scale factors',
-                        key='scale-before-subtract')
-                bad = True
-                break
-            if s in after:
-                out.bad(fn, s.ast, 'the in-place scaling call sits in a loop: blocks are scaled more than once',
-                        key='scale-twice')
-                bad = True
-                break
-        if bad:
-            continue
-        if len(unit) > 1 and any(u2 in bfs(g, g.normal_succ(u), ne) for u in unit for u2 in unit if u2 is not u) or \
-                len(drv) > 1 and any(d2 in bfs(g, g.normal_succ(d), ne) for d in drv for d2 in drv if d2 is not d):
-            out.bad(fn, (unit + drv)[0].ast, 'scaling is applied twice on one path', key='scale-twice')
-            continue
-        lin = [m for n in g.calling('_linearize') for m in g.normal_succ(n)] or [g.entry]
-        odd_guard = None
-        for sc_node in unit + drv:
-            for a in astx.ancestors(sc_node.ast):
-                if isinstance(a, ast.If) and astx.path(a.test) != 'self.has_scaling' and \
-                        not (isinstance(a.test, ast.Constant)) and astx.path(a.test) != 'self.approx':
-                    odd_guard = a
-        if odd_guard is not None:
-            out.unsure(fn, odd_guard, 'jacobian scaling sits under an unrecognised condition')
-            continue
-        if g.path(lin, [g.exit], avoid=unit + deleg, labels=cfgm.noexc) is not None:
-            out.bad(fn, fn.node, 'totals can be returned without unit scaling: values are in declared units, derivatives '
-                    'are not', key='unit-scale-missing')
-            continue
-        tests = [n for n in g.nodes if n.kind == 'test' and isinstance(n.ast, ast.If) and
-                 astx.path(n.ast.test) == 'self.has_scaling']
-
-        def gated(n, m, lab):
-            return lab != 'exc' and not (n in tests and lab == 'false')
-        r = bfs(g, lin, gated, avoid=drv + deleg)
-        if g.exit in r:
-            out.bad(fn, fn.node, 'totals can be returned without driver scaling although has_scaling is set',
-                    key='driver-scale-missing')
-            continue
-        ungated = [d for d in drv if d in bfs(g, [g.entry], lambda n, m, lab: lab != 'exc' and
-                                               not (n in tests and lab == 'true'))]
-        if ungated:
-            out.bad(fn, ungated[0].ast, 'apply_jac_scaling is reachable when has_scaling is false '
-                    '(driver_scaling=False was requested)', key='driver-scale-ungated')
-            continue
-        out.ok(fn, unit[0].ast, 'unit scaling exactly once on every path, after the subtractions')
-        out.ok(fn, drv[0].ast, 'driver scaling exactly once iff has_scaling, after the subtractions')
+        _order_fn(repo, out, repo.func(TOTJAC, qn), True, 0)
     fn = repo.func(TOTJAC, '_TotalJacInfo.__init__')
     hs = [st for st in astx.walk_stmts(fn.node.body) if isinstance(st, ast.Assign) and
           any(astx.path(t) == 'self.has_scaling' for t in st.targets)]
@@ -3024,17 +3052,33 @@ def _truth(e, env):
             return True
         return None if any(v is None for v in vals) else False
     p = astx.path(e)
+    p = env.get('@alias', {}).get(p, p)
     if p in env:
         return env[p]
     return None
+
+
+def _local_aliases(fn):
+    """{local name: attribute path} for locals assigned exactly once from a plain attribute path."""
+    cnt, val = {}, {}
+    for st in astx.walk_stmts(fn.node.body):
+        for t in astx.assigned_targets(st) if isinstance(st, (ast.Assign, ast.AugAssign, ast.AnnAssign, ast.For, ast.With)) else []:
+            if isinstance(t, ast.Name):
+                cnt[t.id] = cnt.get(t.id, 0) + 1
+                if isinstance(st, ast.Assign) and len(st.targets) == 1 and astx.path(st.value) and \
+                        isinstance(st.value, ast.Attribute):
+                    val[t.id] = astx.path(st.value)
+    return {k: v for k, v in val.items() if cnt.get(k) == 1}
 
 
 def _gate_check(out, fn, active, work_nodes, what):
     """Whenever one of the *active* flags/tables is truthy, no early return may skip the work."""
     import itertools
     g = cfgm.build(fn)
+    aliases = _local_aliases(fn)
+    names = {a.split('.')[-1] for a in active} | {k for k, v in aliases.items() if v in active}
     tests = [n for n in g.nodes if n.kind == 'test' and isinstance(n.ast, ast.If) and
-             any(astx.mentions(n.ast.test, a.split('.')[-1]) for a in active)]
+             any(astx.mentions(n.ast.test, a) for a in names)]
     work = [n for st in work_nodes for n in g.nodes_of(st)]
     if not work:
         raise AnalysisError(f'{fn.ident}: no work statements for the gate check')
@@ -3042,6 +3086,7 @@ def _gate_check(out, fn, active, work_nodes, what):
         if not any(combo):
             continue
         env = dict(zip(active, combo))
+        env['@alias'] = aliases
 
         def ok(n, m, lab):
             if lab == 'exc':
@@ -3053,10 +3098,10 @@ def _gate_check(out, fn, active, work_nodes, what):
             return True
         r = bfs(g, [g.entry], ok)
         if not any(w in r for w in work):
-            st_ = ', '.join(f'{a.split(".")[-1]}={"set" if v else "empty"}' for a, v in env.items())
+            st_ = ', '.join(f'{a.split(".")[-1]}={"set" if v else "empty"}' for a, v in env.items() if a != '@alias')
             out.bad(fn, tests[0].ast if tests else fn.node,
                     f'{what} is skipped although scaling is declared ({st_}): values are scaled, this quantity is not',
-                    key='gate-' + '-'.join(a.split('.')[-1] for a, v in env.items() if v))
+                    key='gate-' + '-'.join(a.split('.')[-1] for a, v in env.items() if v and a != '@alias'))
             return False
     out.ok(fn, tests[0].ast if tests else fn.node, f'{what} is reached whenever scaling is declared')
     return True
@@ -3691,10 +3736,24 @@ def _neutral_atom(t, xkey, neutral):
     return None
 
 
-@rule('C20.neutral', floor=20)
+@rule('C20.neutral', floor=10)
 def neutral(repo, out):
     """A declared scaler/adder is replaced by None (= no scaling) only when EVERY entry is the neutral element (1 resp. 0)."""
     m = repo.module(SYSTEM)
+    okgroups = {}
+    try:
+        _neutral_scan(m, out, okgroups)
+    finally:
+        # one obligation per (function, role): how many statements implement it is a matter of style
+        flagged = {(i['func'], i['text'].split(' = ')[0]) for i in out.items if i['status'] != 'ok'}
+        for (qn_, role_), lst in okgroups.items():
+            if (qn_, role_) in flagged:
+                continue
+            f_, st_, nv_ = lst[0]
+            out.ok(f_, st_, f'`{role_}` -> None only when every entry is {nv_} ({len(lst)} statement(s))')
+
+
+def _neutral_scan(m, out, okgroups):
     for f in m.funcs.values():
         if not any(isinstance(w, ast.Constant) and w.value in ('total_scaler', 'scaler') for w in astx.walk(f.node)) and \
                 not any(a.arg in ('scaler', 'adder') for a in f.node.args.args + f.node.args.kwonlyargs):
@@ -3719,43 +3778,76 @@ def neutral(repo, out):
             ats = atoms(gl)
             xkey = K(t)
             neutral_v = _NEUTRAL[role]
-            tables = []
-            relevant = False
-            unknown = None
+            lctx = [None]
+
+            def rsv(e_, at_):
+                # named sub-condition: flag = <bool expr>
+                if isinstance(e_, ast.Name):
+                    if lctx[0] is None:
+                        lctx[0] = Ctx(f)
+                    ns_ = lctx[0].g.nodes_of(at_)
+                    if ns_:
+                        r_, rat = lctx[0].resolve(e_, ns_[0])
+                        if r_ is not e_:
+                            return r_, (rat.ast if rat is not None and hasattr(rat, 'ast') else at_)
+                return e_, at_
+            PATS = _ARR + ('scalar neutral', 'scalar other')
+            state = {'unknown': None, 'relevant': False}
+
+            def ev3(e_, at_, p_):
+                """True / False / None (does not constrain) of a test in pattern p_."""
+                e_, at_ = rsv(e_, at_)
+                if isinstance(e_, ast.UnaryOp) and isinstance(e_.op, ast.Not):
+                    v_ = ev3(e_.operand, at_, p_)
+                    return None if v_ is None else not v_
+                if isinstance(e_, ast.BoolOp):
+                    vs_ = [ev3(x_, at_, p_) for x_ in e_.values]
+                    if isinstance(e_.op, ast.And):
+                        return False if any(v_ is False for v_ in vs_) else (None if any(v_ is None for v_ in vs_) else True)
+                    return True if any(v_ is True for v_ in vs_) else (None if any(v_ is None for v_ in vs_) else False)
+                if isinstance(e_, ast.IfExp):
+                    c_ = ev3(e_.test, at_, p_)
+                    if c_ is True:
+                        return ev3(e_.body, at_, p_)
+                    if c_ is False:
+                        return ev3(e_.orelse, at_, p_)
+                    a_, b_ = ev3(e_.body, at_, p_), ev3(e_.orelse, at_, p_)
+                    return a_ if a_ == b_ else None
+                if not any(K(w) == xkey for w in astx.walk(e_)):
+                    return None             # a test about something else
+                if isinstance(e_, ast.Compare) and len(e_.ops) == 1 and isinstance(e_.ops[0], (ast.Is, ast.IsNot)) and \
+                        not isinstance(e_.comparators[0], ast.Constant):
+                    return None             # identity test against a sentinel object (_UNDEFINED, ...)
+                if isinstance(e_, ast.Call) and astx.callee_attr(e_) == 'is_undefined':
+                    return None
+                state['relevant'] = True
+                tb = _neutral_atom(e_, xkey, neutral_v)
+                if tb is None:
+                    state['unknown'] = e_
+                    return None
+                return tb.get(p_)
             if any(isinstance(tt, ast.Call) and astx.callee_attr(tt) in ('is_undefined',) and pol for tt, pol in ats):
                 continue            # "nothing was declared" sentinel, not a declared value being dropped
-            for tt, pol in ats:
-                if not any(K(w) == xkey for w in astx.walk(tt)):
-                    continue        # a test about something else (static mode, the other scaling family, ...)
-                relevant = True
-                tb = _neutral_atom(tt, xkey, neutral_v)
-                if tb is None:
-                    unknown = tt
-                    break
-                tables.append((tb, pol))
-            if not relevant:
-                continue            # unconditional reset (e.g. the other scaling family is active)
-            if unknown is not None:
-                out.unsure(f, st, f'unrecognised test `{astx.src(unknown)}` in front of `{astx.src(st)}`')
-                continue
             reach = []
-            for p_ in _ARR + ('scalar neutral', 'scalar other'):
-                ok_ = True
-                for tb, pol in tables:
-                    if p_ not in tb:
-                        ok_ = None if ok_ else ok_
-                        continue
-                    if tb[p_] != pol:
-                        ok_ = False
-                if ok_:
+            for p_ in PATS:
+                vals_ = []
+                for tt, pol in gl:
+                    v_ = ev3(tt, st, p_)
+                    vals_.append(None if v_ is None else (v_ == pol))
+                if not any(v_ is False for v_ in vals_):
                     reach.append(p_)
+            if not state['relevant']:
+                continue            # unconditional reset (e.g. the other scaling family is active)
+            if state['unknown'] is not None:
+                out.unsure(f, st, f'unrecognised test `{astx.src(state["unknown"])}` in front of `{astx.src(st)}`')
+                continue
             wrong = [p_ for p_ in reach if p_ not in ('all entries neutral', 'scalar neutral')]
             if wrong:
                 out.bad(f, st, f'`{role}` is dropped (set to None = unscaled) when it has {wrong[0]} '
                         f'(neutral element {neutral_v}): the remaining entries of the declared {role} are ignored',
                         key=f'neutral-{role}')
             else:
-                out.ok(f, st, f'`{role}` -> None only when every entry is {neutral_v}')
+                okgroups.setdefault((f.qualname, role), []).append((f, st, neutral_v))
 
 
 # =========================================================================== which keys are applied
@@ -3977,6 +4069,40 @@ _UNIT_NESTED = ("                out_scaler = self._resp_unit_scalers.get(out_na
                 "                    if out_scaler:\n                        block *= out_scaler\n")
 _VIOLSC = ("            if viol and driver_scaling and meta['total_scaler'] is not None:\n"
            "                con_dict[name] *= meta['total_scaler']\n")
+_FJ_BLOCK = (_SUBTR + "                self._apply_unit_scaling(self.J_dict)\n\n                # Driver scaling.\n"
+             "                if self.has_scaling:\n                    self._driver._autoscaler.apply_jac_scaling(self.J_dict)\n")
+_FJ_ANCHOR = "    def compute_totals(self, progress_out_stream=None):\n"
+_FJ_DEF = ("    def _finish_jac(self):\n        coloring = self.simul_coloring\n        if coloring is not None:\n"
+           "            if coloring._subtractions:\n                coloring._apply_subtractions(self.J)\n\n"
+           "        jac_dict = self.J_dict\n        self._apply_unit_scaling(jac_dict)\n\n"
+           "        if self.has_scaling:\n            self._driver._autoscaler.apply_jac_scaling(jac_dict)\n\n")
+_FJ_DEF_BAD = ("    def _finish_jac(self):\n        jac_dict = self.J_dict\n        self._apply_unit_scaling(jac_dict)\n\n"
+               "        coloring = self.simul_coloring\n        if coloring is not None:\n"
+               "            if coloring._subtractions:\n                coloring._apply_subtractions(self.J)\n\n"
+               "        if self.has_scaling:\n            self._driver._autoscaler.apply_jac_scaling(jac_dict)\n\n")
+_FJ_DEF_NOUNIT = ("    def _finish_jac(self):\n        coloring = self.simul_coloring\n        if coloring is not None:\n"
+                  "            if coloring._subtractions:\n                coloring._apply_subtractions(self.J)\n\n"
+                  "        if self.has_scaling:\n            self._driver._autoscaler.apply_jac_scaling(self.J_dict)\n\n")
+_ND_OLD = ("        if isinstance(scaler, np.ndarray):\n            if np.all(scaler == 1.0):\n                scaler = None\n"
+           "        elif scaler == 1.0:\n            scaler = None\n\n        if isinstance(adder, np.ndarray):\n"
+           "            if not np.any(adder):\n                adder = None\n        elif adder == 0.0:\n            adder = None\n\n"
+           "        # determine adder")
+_ND_NEW = ("        unit_scaler = np.all(scaler == 1.0) if isinstance(scaler, np.ndarray) else scaler == 1.0\n"
+           "        if unit_scaler:\n            scaler = None\n\n"
+           "        zero_adder = not np.any(adder) if isinstance(adder, np.ndarray) else adder == 0.0\n"
+           "        if zero_adder:\n            adder = None\n\n        # determine adder")
+_NR_OLD = ("        if isinstance(scaler, np.ndarray):\n            if np.all(scaler == 1.0):\n                scaler = None\n"
+           "        elif scaler == 1.0:\n            scaler = None\n        resp['scaler'] = scaler\n")
+_NR_NEW = ("        scaler_is_array = isinstance(scaler, np.ndarray)\n        if scaler_is_array and np.all(scaler == 1.0):\n"
+           "            scaler = None\n        elif not scaler_is_array and scaler == 1.0:\n            scaler = None\n"
+           "        resp['scaler'] = scaler\n")
+_UA_OLD1 = "        if not self._resp_unit_scalers and not self._desvar_unit_scalers:\n            return\n"
+_UA_NEW1 = ("        resp_scalers = self._resp_unit_scalers\n        desvar_scalers = self._desvar_unit_scalers\n\n"
+            "        if not (resp_scalers or desvar_scalers):\n            return\n")
+_UA_EDITS = [(TOTJAC, "                out_scaler = self._resp_unit_scalers.get(out_name)\n                if out_scaler:",
+              "                out_scaler = resp_scalers.get(out_name)\n                if out_scaler:"),
+             (TOTJAC, "                in_scaler = self._desvar_unit_scalers.get(in_name)\n                if in_scaler:\n                    block *= (1.0 / in_scaler)\n        else:",
+              "                in_scaler = desvar_scalers.get(in_name)\n                if in_scaler:\n                    block *= (1.0 / in_scaler)\n        else:")]
 _MDV = ("                scaler = self._var_meta['design_var'][name]['total_scaler']\n"
         "                if scaler is None:\n                    scaler = 1.0\n")
 _MCON = _MDV.replace("'design_var'", "'constraint'")
@@ -4351,6 +4477,30 @@ selftest(
          "                con_dict[name] = con_dict[name] * ts\n"),
     Twin('twin-to-dict-np-array', OVEC, "                val = self[name].copy()  # Use copy to return independent array (gathered array)\n",
          "                val = np.array(self[name])\n"),
+    # ---- third robustness round
+    Twin('twin-finish-jac-helper', TOTJAC, _FJ_BLOCK, "                self._finish_jac()\n", also=[(TOTJAC, _FJ_ANCHOR, _FJ_DEF + _FJ_ANCHOR)]),
+    Mutant('finish-jac-helper-scales-before-subtracting', TOTJAC, _FJ_BLOCK, "                self._finish_jac()\n", 'C20.order',
+           also=[(TOTJAC, _FJ_ANCHOR, _FJ_DEF_BAD + _FJ_ANCHOR)]),
+    Mutant('finish-jac-helper-without-unit-scaling', TOTJAC, _FJ_BLOCK, "                self._finish_jac()\n", 'C20.order',
+           also=[(TOTJAC, _FJ_ANCHOR, _FJ_DEF_NOUNIT + _FJ_ANCHOR)]),
+    Mutant('finish-jac-helper-called-in-loop', TOTJAC, _FJ_BLOCK, "", 'C20.order',
+           also=[(TOTJAC, _FJ_ANCHOR, _FJ_DEF + _FJ_ANCHOR),
+                 (TOTJAC, "                            self.model._problem_meta['seed_vars'] = None\n                \n",
+                  "                            self.model._problem_meta['seed_vars'] = None\n                    self._finish_jac()\n                \n")]),
+    Twin('twin-neutral-named-condition', SYSTEM, _ND_OLD, _ND_NEW),
+    Mutant('neutral-named-condition-any', SYSTEM, _ND_OLD, _ND_NEW.replace('np.all(scaler == 1.0)', 'np.any(scaler == 1.0)'), 'C20.neutral'),
+    Mutant('neutral-named-condition-branches-swapped', SYSTEM, _ND_OLD,
+           _ND_NEW.replace('not np.any(adder) if isinstance(adder, np.ndarray) else adder == 0.0',
+                           'not np.all(adder) if isinstance(adder, np.ndarray) else adder == 0.0'), 'C20.neutral'),
+    Twin('twin-neutral-is-array-flag', SYSTEM, _NR_OLD, _NR_NEW),
+    Mutant('neutral-is-array-flag-any', SYSTEM, _NR_OLD, _NR_NEW.replace('np.all(scaler == 1.0)', 'np.any(scaler == 1.0)'), 'C20.neutral'),
+    Mutant('neutral-is-array-flag-scalar-inverted', SYSTEM, _NR_OLD, _NR_NEW.replace('not scaler_is_array and scaler == 1.0', 'not scaler_is_array and scaler != 1.0'),
+           'C20.neutral'),
+    Twin('twin-unit-table-aliases', TOTJAC, _UA_OLD1, _UA_NEW1, also=_UA_EDITS),
+    Mutant('unit-table-aliases-crossed', TOTJAC, _UA_OLD1, _UA_NEW1, 'C20.jac',
+           also=[_UA_EDITS[0], (TOTJAC, _UA_EDITS[1][1], _UA_EDITS[1][2].replace('desvar_scalers.get(in_name)', 'resp_scalers.get(in_name)'))]),
+    Mutant('unit-table-aliases-early-return-and', TOTJAC, _UA_OLD1, _UA_NEW1.replace('resp_scalers or desvar_scalers', 'resp_scalers and desvar_scalers'),
+           'C20.gates', also=_UA_EDITS),
     # ---- twins
     Twin('twin-order-extra-guarded-debug', TOTJAC, "                self._apply_unit_scaling(self.J_dict)\n\n                # Driver scaling.",
          "                if debug_print:\n                    print('scaling', flush=True)\n                self._apply_unit_scaling(self.J_dict)\n\n                # Driver scaling."),
